@@ -151,7 +151,7 @@ def run(ctx):
         "TLC enumerates the descriptors and judges the recorded outcomes; the harness only applies descriptors (its apply() is compared with TLC's Apply on a 70-byte test encoding every run)",
         "a huge allocation is observed as a failed allocation under RLIMIT_AS = 1 GiB (outcome oom); allocations below the limit are not flagged",
         "timeout = 10 s of process CPU time inside one call (or 120 s blocked); wall time is not used because the sandbox stalls for seconds under load",
-        "after 4 process-killing cases (2 timeouts) in one batch the rest of that batch is skipped and reported as skipped, never as passed",
+        "after 3 process-killing cases (2 timeouts) in one batch the rest of that batch is skipped and reported as skipped, never as passed",
         "valid encodings come from the real encoders on 2 (quick) / 4 (thorough) payloads; string inputs (hex, base64) are passed through from_utf8_lossy",
         "parsers that rebuild a 257x4096 decode table per call (huff.ctx.decode_xN) get raw strings up to length 1 only",
     ]
